@@ -20,7 +20,8 @@ def main():
     g = apilib.import_gufo(job["so"], job["repo"])
     if prop == "pylayer":
         import pylayer
-        res = {"pylayer": [pylayer.run_case(g, cs) for cs in job["pylayer_cases"]]}
+        res = {"pylayer": [pylayer.run_case(g, cs) for cs in job.get("pylayer_cases", [])],
+               "pyprog": [pylayer.run_prog_case(g, cs) for cs in job.get("pyprog_cases", [])]}
     else:
         mod = importlib.import_module("lib.props." + prop)
         res = mod.api_main(g, job)
